@@ -38,6 +38,15 @@ pub struct Stats {
     pub not_representable: AtomicU64,
     pub alt_decodes: AtomicU64,
     pub padded_or_aliased: AtomicU64,
+    pub rebinds: AtomicU64,
+}
+
+/// False where the canonical form holds the empty value at a zero-field UDT (not a CQL type: CREATE TYPE needs a field).
+fn rebindable(t: &Type, canon: &Value) -> bool {
+    if *canon == Value::Empty {
+        return !matches!(t, Type::Udt { fields, .. } if fields.is_empty());
+    }
+    refv::children(t, canon).into_iter().all(|(ct, cv)| rebindable(ct, cv))
 }
 
 fn contains_udt(t: &Type) -> bool {
@@ -138,6 +147,26 @@ pub fn check_case(t: &Type, v: &Value, acc: Accept, st: &Stats) -> Result<bool, 
         decode_and_compare(t, &ct, bytes, want, "roundtrip", v)?;
         if want != v {
             st.padded_or_aliased.fetch_add(1, Ordering::Relaxed);
+            // The decoded value is "an equal value" of the same type: it must itself bind to that type, with the
+            // reference encoding of the canonical form (a tuple given zero fields comes back as the zero-length
+            // empty value, so empty must be writable for the tuple type; a short tuple comes back padded).
+            if rebindable(t, want) {
+                if let Some(cv2) = to_cql(t, want) {
+                    let want_bytes = refv::encode(t, want).unwrap_or_else(|e| vcore::machinery_error(&format!("reference rejects canonical form {want:?} of {t}: {e}"))).framed();
+                    match catch(std::panic::AssertUnwindSafe(|| ser_cell_writer(&cv2, &ct))) {
+                        Err(p) => return fail("panic-serialize", format!("re-binding the decoded value {} to {t} panicked: {p}", values::brief(want))).map(|_| true),
+                        Ok(Err(e)) => {
+                            return fail("rebind-decoded", format!("{} bound to {t} decodes to {}, which can not be bound to the same type again: {e}", values::brief(v), values::brief(want))).map(|_| true);
+                        }
+                        Ok(Ok(b)) => {
+                            if b != want_bytes {
+                                return fail("rebind-decoded", format!("{} bound to {t} decodes to {}; binding that again gives {} instead of {}", values::brief(v), values::brief(want), hex_brief(&b), hex_brief(&want_bytes))).map(|_| true);
+                            }
+                            st.rebinds.fetch_add(1, Ordering::Relaxed);
+                        }
+                    }
+                }
+            }
         }
         // ---- alternative valid encoding (short UDTs)
         if contains_udt(t) {
@@ -191,7 +220,7 @@ pub fn run_and_report(r: &Report, t: &Type, v: &Value, acc: Accept, st: &Stats) 
             r.violation(
                 &format!("{}:{}", f.check, st_t.shape()),
                 &f.what,
-                json!({"leg": "dyn", "type": st_t.to_string(), "value": values::value_to_json(&st_v), "found_in": t.to_string()}),
+                json!({"leg": "dyn", "type": st_t.to_string(), "value": values::value_to_json(&st_v), "found_in": t.to_string(), "frozen": frozen_mode()}),
             );
             true
         }
@@ -267,11 +296,17 @@ pub fn run(r: &Report) {
         types_seen.fetch_add(1, Ordering::Relaxed);
         max_depth.fetch_max(t.depth() as u64, Ordering::Relaxed);
         let composite = t.depth() >= 1;
+        let mut modes = frozen_modes_for(t);
+        if !thorough {
+            modes.retain(|m| *m != 2); // nested-only-frozen variant: thorough tier (and always in the static leg / C17 matrix)
+        }
         for (v, acc) in values::top_cases(t) {
-            r.eval(1);
-            let exercised = run_and_report(r, t, &v, acc, &st);
-            if exercised && composite && !matches!(v, Value::Null | Value::Unset | Value::Empty) {
-                r.nontrivial(1);
+            for mode in &modes {
+                r.eval(1);
+                let exercised = with_frozen(*mode, || run_and_report(r, t, &v, acc, &st));
+                if exercised && composite && *mode == 0 && !matches!(v, Value::Null | Value::Unset | Value::Empty) {
+                    r.nontrivial(1);
+                }
             }
         }
     };
@@ -307,6 +342,7 @@ pub fn run(r: &Report) {
     r.counters.add("cases_not_expressible_as_CqlValue", st.not_representable.load(Ordering::Relaxed));
     r.counters.add("cases_with_padded_or_aliased_canonical_form", st.padded_or_aliased.load(Ordering::Relaxed));
     r.counters.add("short_udt_alternative_encodings_decoded", st.alt_decodes.load(Ordering::Relaxed));
+    r.counters.add("decoded_canonical_forms_bound_again", st.rebinds.load(Ordering::Relaxed));
     r.note("max_type_depth", json!(max_depth.load(Ordering::Relaxed)));
     r.set_rule(
         "E-ENUM, dynamic value type. Column types: 20 natives; depth 1 = list/set/vector(dim 0..3) of every native, map of every native pair, tuple+UDT arity 0,1,2 (all), 3 (all triples over int,text,boolean,varint,uuid,duration + (n,int,text)); depth 2 = list/set/vector/map/tuple/UDT constructors over every depth-1 type with partner types {int,text,varint,boolean} (quick) or all natives (thorough), vector dim 0..3; thorough adds all 8000 arity-3 tuples and UDTs over the natives, depth 3 (constructors applied three times, partners int/text) over the six class representatives int/text/boolean/varint/uuid/duration and uses the full native alphabets down to nesting level 2. Values per type: the listed boundary alphabet (numeric MIN/-1/0/1/MAX, NaN payloads, -0.0, multi-byte UTF-8, strings/blobs of 0/1/127/128/16386 bytes, durations at every vint length 1..9, non-normalised and zero-length varints, decimals with negative scale), every container shape (empty, each singleton, pair, triple; every tuple/UDT position x every value, every null pattern, every shorter tuple, every UDT omission pattern, reversed UDT naming order), null, not-set, zero-length empty. Oracle: crate::refvalue (bytes equal incl. length prefix; decode == canonical form). distinct_nontrivial = accepted cases of composite types with a non-null, non-empty value.",
@@ -336,5 +372,6 @@ pub fn replay(r: &Report, case: &serde_json::Value) {
         }
     }
     r.eval(1);
-    run_and_report(r, &t, &v, acc, &st);
+    let mode = case["frozen"].as_u64().unwrap_or(0) as u8;
+    with_frozen(mode, || run_and_report(r, &t, &v, acc, &st));
 }
